@@ -1,5 +1,7 @@
 // Package vh holds what every conformance driver shares: reading TLC-generated scenarios,
-// writing recorded traces, seeded concretisation, a worker pool.
+// recording traces, seeded concretisation, and a supervisor that runs scenarios in child
+// processes so that a crash of the code under test (panic in a goroutine, runtime fatal error,
+// os.Exit from a FATAL log call) is attributed to the step that caused it instead of killing the run.
 package vh
 
 import (
@@ -10,14 +12,23 @@ import (
 	"io/ioutil"
 	"math/rand"
 	"os"
+	"os/exec"
 	"path/filepath"
+	"sort"
 	"sync"
+	"syscall"
 )
 
-// Step is one abstract action of a TLC-generated behaviour: {"a": name, args...}.
+// Step is one abstract action of a TLC-generated behaviour: {"a"|"t": name, args...}.
 type Step map[string]interface{}
 
-func (s Step) A() string { v, _ := s["a"].(string); return v }
+func (s Step) A() string {
+	if v, ok := s["a"].(string); ok {
+		return v
+	}
+	v, _ := s["t"].(string)
+	return v
+}
 func (s Step) Str(k string) string {
 	v, _ := s[k].(string)
 	return v
@@ -56,26 +67,66 @@ func SeqSeq(v interface{}) [][]string {
 
 // Scenario is one behaviour to execute.
 type Scenario struct {
-	Sc    int    `json:"sc"`
-	Seed  int64  `json:"seed"`
-	Steps []Step `json:"steps"`
+	Sc    int                    `json:"sc"`
+	Seed  int64                  `json:"seed"`
+	Steps []Step                 `json:"steps"`
+	Opt   map[string]interface{} `json:"opt,omitempty"`
 }
+
+type Event = map[string]interface{}
 
 // Trace is what a driver recorded for one scenario.
 type Trace struct {
-	Sc   int                      `json:"sc"`
-	Seed int64                    `json:"seed"`
-	Ev   []map[string]interface{} `json:"ev"`
-	Note string                   `json:"note,omitempty"`
-	Dead bool                     `json:"dead,omitempty"` // the driver could not complete the scenario (machinery, not verdict)
-	Conc map[string]string        `json:"conc,omitempty"` // concretisation used
+	Sc   int               `json:"sc"`
+	Seed int64             `json:"seed"`
+	Ev   []Event           `json:"ev"`
+	Note string            `json:"note,omitempty"`
+	Dead bool              `json:"dead,omitempty"` // the driver could not run the scenario (machinery, not verdict)
+	Died bool              `json:"died,omitempty"` // the process died inside a step of this scenario (recorded as res="died")
+	Conc map[string]string `json:"conc,omitempty"` // concretisation used
 }
+
+// Rec records the events of one scenario; Begin marks the start of a step so that a process death
+// inside it can be attributed.
+type Rec struct {
+	sc   int
+	w    *bufio.Writer
+	f    *os.File
+	Conc map[string]string
+	Note string
+	Dead bool
+}
+
+type line struct {
+	Sc    int               `json:"sc"`
+	Begin *Event            `json:"begin,omitempty"`
+	Ev    *Event            `json:"ev,omitempty"`
+	Done  bool              `json:"done,omitempty"`
+	Note  string            `json:"note,omitempty"`
+	Dead  bool              `json:"dead,omitempty"`
+	Conc  map[string]string `json:"conc,omitempty"`
+}
+
+func (r *Rec) write(l line) {
+	b, _ := json.Marshal(l)
+	r.w.Write(b)
+	r.w.WriteByte('\n')
+	r.w.Flush()
+}
+
+// Begin announces the step about to run (its abstract form); if the process dies before Emit, the
+// supervisor turns it into an event with res = "died".
+func (r *Rec) Begin(ev Event) { r.write(line{Sc: r.sc, Begin: &ev}) }
+func (r *Rec) Emit(ev Event)  { r.write(line{Sc: r.sc, Ev: &ev}) }
 
 var (
 	ScenFile = flag.String("scenarios", "", "JSON file with scenarios")
 	OutFile  = flag.String("out", "", "ndjson trace output")
-	Workers  = flag.Int("workers", 8, "parallel scenarios")
+	Workers  = flag.Int("workers", 8, "parallel child processes")
 	WorkDir  = flag.String("workdir", "", "scratch directory (default: temp)")
+	child    = flag.String("child", "", "internal: run as child, comma separated part file")
+	childLo  = flag.Int("lo", 0, "internal")
+	childHi  = flag.Int("hi", 0, "internal")
 )
 
 func LoadScenarios() []Scenario {
@@ -95,8 +146,43 @@ func Fatal(f string, a ...interface{}) {
 	os.Exit(3)
 }
 
-// RunAll executes every scenario with `run` on a pool and writes the traces in scenario order.
-func RunAll(scs []Scenario, run func(sc Scenario, dir string) Trace) {
+// RunFunc executes one scenario in directory dir and records through rec.
+type RunFunc func(sc Scenario, dir string, rec *Rec)
+
+// Main is the entry point of a driver: supervisor by default, child when -child is given.
+func Main(run RunFunc) {
+	if !flag.Parsed() {
+		flag.Parse()
+	}
+	scs := LoadScenarios()
+	if *child != "" {
+		runChild(scs, run)
+		return
+	}
+	supervise(scs)
+}
+
+func runChild(scs []Scenario, run RunFunc) {
+	f, err := os.OpenFile(*child, os.O_CREATE|os.O_WRONLY|os.O_APPEND, 0o644)
+	if err != nil {
+		Fatal("open part: %v", err)
+	}
+	w := bufio.NewWriter(f)
+	base := *WorkDir
+	for i := *childLo; i < *childHi && i < len(scs); i++ {
+		dir := filepath.Join(base, fmt.Sprintf("sc%d", scs[i].Sc))
+		os.MkdirAll(dir, 0o755)
+		rec := &Rec{sc: scs[i].Sc, w: w, f: f}
+		run(scs[i], dir, rec)
+		rec.write(line{Sc: scs[i].Sc, Done: true, Note: rec.Note, Dead: rec.Dead, Conc: rec.Conc})
+		os.RemoveAll(dir)
+	}
+	f.Close()
+}
+
+// supervise splits the scenarios over child processes; a child that dies is restarted after the
+// scenario it died in.
+func supervise(scs []Scenario) {
 	base := *WorkDir
 	if base == "" {
 		d, err := ioutil.TempDir("", "vhdrv-")
@@ -106,26 +192,73 @@ func RunAll(scs []Scenario, run func(sc Scenario, dir string) Trace) {
 		base = d
 		defer os.RemoveAll(d)
 	}
-	res := make([]Trace, len(scs))
+	n := *Workers
+	if n > len(scs) {
+		n = len(scs)
+	}
+	if n < 1 {
+		n = 1
+	}
+	traces := make(map[int]*Trace)
+	var mu sync.Mutex
 	var wg sync.WaitGroup
-	ch := make(chan int)
-	for w := 0; w < *Workers; w++ {
+	self, _ := os.Executable()
+	// interleaved assignment would break lo..hi slicing; use contiguous chunks
+	chunk := (len(scs) + n - 1) / n
+	for k := 0; k < n; k++ {
+		lo, hi := k*chunk, (k+1)*chunk
+		if hi > len(scs) {
+			hi = len(scs)
+		}
+		if lo >= hi {
+			continue
+		}
 		wg.Add(1)
-		go func() {
+		go func(k, lo, hi int) {
 			defer wg.Done()
-			for i := range ch {
-				dir := filepath.Join(base, fmt.Sprintf("sc%d", scs[i].Sc))
-				os.MkdirAll(dir, 0o755)
-				res[i] = run(scs[i], dir)
-				res[i].Sc, res[i].Seed = scs[i].Sc, scs[i].Seed
-				os.RemoveAll(dir)
+			part := filepath.Join(base, fmt.Sprintf("part%d.ndjson", k))
+			wd := filepath.Join(base, fmt.Sprintf("w%d", k))
+			os.MkdirAll(wd, 0o755)
+			logPath := filepath.Join(base, fmt.Sprintf("child%d.log", k))
+			logf, _ := os.Create(logPath)
+			defer logf.Close()
+			cur := lo
+			restarts := 0
+			for cur < hi {
+				os.Remove(part)
+				args := []string{"-scenarios", *ScenFile, "-child", part, "-lo", fmt.Sprint(cur), "-hi", fmt.Sprint(hi), "-workdir", wd}
+				args = append(args, passThrough()...)
+				cmd := exec.Command(self, args...)
+				cmd.Stdout, cmd.Stderr = logf, logf
+				cmd.Env = append(os.Environ(), "VH_CHILD_LOG="+logPath)
+				cmd.SysProcAttr = &syscall.SysProcAttr{Setpgid: true}
+				err := cmd.Run()
+				got := readPart(part, scs)
+				mu.Lock()
+				done := 0
+				for _, t := range got {
+					traces[t.Sc] = t
+					done++
+				}
+				mu.Unlock()
+				if err == nil {
+					break
+				}
+				// the child died: `got` ends with the scenario it died in (marked Died) - resume after it
+				cur += done
+				restarts++
+				if done == 0 || restarts > hi-lo+2 {
+					mu.Lock()
+					for i := cur; i < hi; i++ {
+						traces[scs[i].Sc] = &Trace{Sc: scs[i].Sc, Seed: scs[i].Seed, Dead: true, Note: fmt.Sprintf("child process failed before recording anything: %v", err)}
+					}
+					mu.Unlock()
+					break
+				}
 			}
-		}()
+			os.RemoveAll(wd)
+		}(k, lo, hi)
 	}
-	for i := range scs {
-		ch <- i
-	}
-	close(ch)
 	wg.Wait()
 	f, err := os.Create(*OutFile)
 	if err != nil {
@@ -133,8 +266,25 @@ func RunAll(scs []Scenario, run func(sc Scenario, dir string) Trace) {
 	}
 	w := bufio.NewWriter(f)
 	enc := json.NewEncoder(w)
-	for i := range res {
-		if err := enc.Encode(&res[i]); err != nil {
+	keys := make([]int, 0, len(traces))
+	for k := range traces {
+		keys = append(keys, k)
+	}
+	sort.Ints(keys)
+	bySc := map[int]Scenario{}
+	for _, s := range scs {
+		bySc[s.Sc] = s
+	}
+	for _, s := range scs {
+		t, ok := traces[s.Sc]
+		if !ok {
+			t = &Trace{Sc: s.Sc, Seed: s.Seed, Dead: true, Note: "scenario not run"}
+		}
+		t.Seed = s.Seed
+		if t.Ev == nil {
+			t.Ev = []Event{}
+		}
+		if err := enc.Encode(t); err != nil {
 			Fatal("encode: %v", err)
 		}
 	}
@@ -142,9 +292,71 @@ func RunAll(scs []Scenario, run func(sc Scenario, dir string) Trace) {
 	f.Close()
 }
 
+// extra flags a driver defines are passed to children unchanged
+func passThrough() []string {
+	var out []string
+	skip := map[string]bool{"scenarios": true, "out": true, "workers": true, "workdir": true, "child": true, "lo": true, "hi": true}
+	flag.Visit(func(f *flag.Flag) {
+		if !skip[f.Name] {
+			out = append(out, "-"+f.Name+"="+f.Value.String())
+		}
+	})
+	return out
+}
+
+func readPart(part string, scs []Scenario) []*Trace {
+	f, err := os.Open(part)
+	if err != nil {
+		return nil
+	}
+	defer f.Close()
+	var out []*Trace
+	var cur *Trace
+	var pending *Event
+	sc := bufio.NewScanner(f)
+	sc.Buffer(make([]byte, 1<<20), 1<<28)
+	for sc.Scan() {
+		var l line
+		if json.Unmarshal(sc.Bytes(), &l) != nil {
+			continue
+		}
+		if cur == nil || cur.Sc != l.Sc {
+			cur = &Trace{Sc: l.Sc, Ev: []Event{}}
+			out = append(out, cur)
+			pending = nil
+		}
+		switch {
+		case l.Begin != nil:
+			pending = l.Begin
+		case l.Ev != nil:
+			cur.Ev = append(cur.Ev, *l.Ev)
+			pending = nil
+		case l.Done:
+			cur.Note, cur.Dead, cur.Conc = l.Note, l.Dead, l.Conc
+			cur = nil
+			pending = nil
+			continue
+		}
+	}
+	if cur != nil { // the process died inside this scenario
+		cur.Died = true
+		ev := Event{"res": "died"}
+		if pending != nil {
+			for k, v := range *pending {
+				ev[k] = v
+			}
+			ev["res"] = "died"
+		} else {
+			ev["a"] = "?"
+		}
+		cur.Ev = append(cur.Ev, ev)
+	}
+	return out
+}
+
 func Rng(seed int64) *rand.Rand { return rand.New(rand.NewSource(seed)) }
 
-// CopyDir copies a flat or nested directory (used for "as if restarted" images).
+// CopyDir copies a directory tree (used for "as if restarted" images).
 func CopyDir(src, dst string) error {
 	return filepath.Walk(src, func(p string, info os.FileInfo, err error) error {
 		if err != nil {
